@@ -1,6 +1,6 @@
 (** SbmlDocProofs -- reactions (numeric / fractional / computed coefficients of either sign),
     initial assignments, reference ids, id escaping. *)
-From Coq Require Import ZArith NArith Nnat QArith Qabs List Bool String Ascii Lia.
+From Coq Require Import ZArith NArith Nnat QArith Qabs Qround List Bool String Ascii Lia.
 Import ListNotations.
 From SbmlExp Require Import SbmlMath SbmlId SbmlDoc SbmlMathProofs.
 
@@ -400,4 +400,73 @@ Lemma last_statement_refuted :
 Proof.
   exists (mkFun [] [SReturn (EInt 1); SReturn (EInt 7)]).
   eexists. split; [vm_compute; reflexivity|]. split; vm_compute; reflexivity.
+Qed.
+
+(** * regression shapes of seeded changes *)
+
+(** _handle_body converting only the last statement (fact BodyLastOnly): the saturating law
+      def f(s, vmax, km): s = s / (km + s); return vmax * s
+    is exported as vmax * s *)
+Definition rho_sat : N -> option Q :=
+  fun x => if N.eqb x 100 then Some 2 else if N.eqb x 200 then Some 3 else Some (1 # 2).
+Definition saturating_law : fundef :=
+  mkFun [0; 1; 2]%N [SAssign 0%N (EBin BDiv (EName 0) (EBin BAdd (EName 2) (EName 0))); SReturn (EBin BMul (EName 1) (EName 0))].
+
+Lemma last_only_refuted :
+  exists fd args m,
+    no_dead_code (fd_body fd) = true
+    /\ tree_to_sbml (set_body BodyLastOnly gen_facts) fd args = Ok m
+    /\ eval_fn no_fn rho_sat fd args = Some (12 # 5) /\ eval_ml no_fn rho_sat m = Some 6.
+Proof.
+  exists saturating_law, [100; 200; 201]%N. eexists.
+  split; [reflexivity|]. split; [vm_compute; reflexivity|]. split; vm_compute; reflexivity.
+Qed.
+
+Lemma saturating_law_refused : exists er, tree_to_sbml gen_facts saturating_law [100; 200; 201]%N = Err er.
+Proof. eexists. vm_compute. reflexivity. Qed.
+
+(** the two remainders, exactly: floored (numpy.remainder, Python's %, SBML rem as the importer reads it) and IEEE 754
+    (math.remainder: a - n * b with n the integer nearest to a / b, ties to even) *)
+Definition Qround_even (q : Q) : Z :=
+  let f := Qfloor q in
+  match Qcompare (q - inject_Z f) (1 # 2) with
+  | Lt => f
+  | Gt => (f + 1)%Z
+  | Eq => if Z.even f then f else (f + 1)%Z
+  end.
+Definition rem_fn : rfun -> list Q -> option Q :=
+  fun r vs =>
+    match r, vs with
+    | RRem, [a; b] => if Qeq_bool b 0 then None else Some (Qred (a - b * inject_Z (Qfloor (a / b))))
+    | RIeeeRem, [a; b] => if Qeq_bool b 0 then None else Some (Qred (a - b * inject_Z (Qround_even (a / b))))
+    | _, _ => None
+    end.
+
+(** "remainder" moved from UNARY to BINARY (seeded C08-6) *)
+Definition remainder_binary (F : facts) : facts :=
+  set_tables (filter (fun p => negb (String.eqb (fst p) "remainder")) (f_unary F))
+             (f_binary F ++ [("remainder"%string, K_FUNCTION_REM)]) F.
+
+Lemma math_remainder_refuted :
+  exists e m,
+    conv (remainder_binary gen_facts) e = Ok m
+    /\ eval_py rem_fn (at_ 5) e = Some (-1 # 1) /\ eval_ml rem_fn (at_ 5) m = Some (2 # 1).
+Proof.
+  exists (ECallAttr "math" "remainder" (ECons (EName 0) (ECons (EInt 3) ENil)) false). eexists.
+  split; [vm_compute; reflexivity|]. split; vm_compute; reflexivity.
+Qed.
+
+(** ... while numpy.remainder keeps its meaning under the same table, and the table fails the side condition *)
+Lemma numpy_remainder_example :
+  exists m,
+    conv (remainder_binary gen_facts) (ECallAttr "np" "remainder" (ECons (EName 0) (ECons (EInt 3) ENil)) false) = Ok m
+    /\ eval_py rem_fn (at_ 5) (ECallAttr "np" "remainder" (ECons (EName 0) (ECons (EInt 3) ENil)) false) = Some (2 # 1)
+    /\ eval_ml rem_fn (at_ 5) m = Some (2 # 1)
+    /\ facts_good (remainder_binary gen_facts) = false.
+Proof. eexists. split; [vm_compute; reflexivity|]. split; [|split]; vm_compute; reflexivity. Qed.
+
+Lemma remainder_refused : forall p : string,
+  exists er, conv gen_facts (ECallAttr p "remainder" (ECons (EName 0) (ECons (EInt 3) ENil)) false) = Err er.
+Proof.
+  intros p. cbn [conv]. cbn [andb]. destruct (mem_s p (f_lib_parents gen_facts)); eexists; vm_compute; reflexivity.
 Qed.
